@@ -147,11 +147,13 @@ let decode_lines (ser : string) : R.aline list =
   let fch () = match int () with
     | 0 -> R.CName (nch ()) | 1 -> R.CInt (ich ())
     | 2 -> let d = lst nat in let u = lst bl in R.CIp6 { R.g_drop = d; R.g_upper = u }
-    | 3 -> R.CStr (sch ()) | _ -> R.CPlain in
+    | 3 -> R.CStr (sch ())
+    | 5 -> (match int () with 0 -> R.CProto (R.PTcp (lst bl)) | 1 -> R.CProto (R.PUdp (lst bl)) | _ -> R.CProto (R.PNum (ich ())))
+    | _ -> R.CPlain in
   let fval () = match int () with
     | 0 -> R.VName (labels ()) | 1 -> R.VU16 (n ()) | 2 -> R.VU32 (n ()) | 3 -> R.VOct (n ())
     | 4 -> let a = n () in let b = n () in let c = n () in let d = n () in R.VIp4 (a, b, c, d)
-    | 5 -> R.VIp6 (lst n) | _ -> R.VStr (by ()) in
+    | 5 -> R.VIp6 (lst n) | 7 -> R.VProto (n ()) | 8 -> R.VPort (n ()) | _ -> R.VStr (by ()) in
   let tcc () = match int () with
     | 0 -> R.TcNone
     | 1 -> let raw = n () in let ic = ich () in let s = sep () in R.TcT (raw, ic, s)
